@@ -75,6 +75,7 @@ from .asttypes import (
     For,
     FormattedValue,
     FunctionDef,
+    GeneratorExp,
     Global,
     Gt,
     GtE,
@@ -3499,6 +3500,14 @@ class FST:
                         and shared is not None
                         and (self._is_solo_call_arg() or self._is_solo_class_base() or self._is_solo_matchcls_pat())
                     ):
+                        llpars -= 1
+
+                    elif (llpars <= lrpars
+                          and shared is not None
+                          and (parent := self.parent)
+                          and (parenta := parent.a).__class__ is GeneratorExp
+                          and not parenta.generators
+                    ):  # elt of GeneratorExp with all generators removed (norm_self=False), outermost pars belong to the GeneratorExp
                         llpars -= 1
 
                     if llpars != lrpars:  # unbalanced pars so we know we can safely use the lower count
